@@ -7,6 +7,7 @@ open Sx
 open Model_c15
 
 let kf_id = "xml-literal-namespace"
+let kf_in_id = "embedded-no-namespace"
 
 (* ---- conversions *)
 let rec nat_of_int i = if i <= 0 then O else S (nat_of_int (i - 1))
@@ -111,7 +112,7 @@ let doc_detail ts (o : doc_obs) =
          (b2s (raw_eqb o.do_raw v)) (b2s (read_agrees v o.do_read))
          (b2s (res_eqb (list_eqb otoken_eqb) o.do_dec (retrans dl))) (show_res (retrans dl))
          (b2s (list_eqb otoken_eqb (fst o.do_read2) dl' && outcome_eqb (snd o.do_read2) doc_))
-         (b2s (marshal_agrees v' o.do_mar)) (show_res (marshal v'))
+         (b2s (marshal_agrees v' o.do_mar && marshal_in_agrees dav_ns v' o.do_mar_in)) (show_res (marshal v'))
          (show_status o.do_status) (show_outcome o.do_read.ro_outcome) (b2s o.do_read.ro_eof_again)
          (List.length o.do_read.ro_steps)
      | Some (Err _) -> "model: capture=err | obs: status=" ^ show_status o.do_status
@@ -121,11 +122,12 @@ let doc_detail ts (o : doc_obs) =
 
 let spec_detail ts (o : doc_obs) =
   let d = somes (drained o.do_read) in
-  Printf.sprintf "spec: finite=%s nested=%s stream_tree=%s dec_tree=%s mar_tree=%s stable=%s"
+  Printf.sprintf "spec: finite=%s nested=%s stream_tree=%s dec_tree=%s mar_tree=%s mar_in_tree=%s stable=%s"
     (b2s (outcome_eqb o.do_read.ro_outcome DEof && o.do_read.ro_eof_again))
     (b2s (wn [] d)) (b2s (same_stream d ts))
     (b2s (match o.do_dec with Ok l -> same_stream (somes l) ts | _ -> false))
     (b2s (match o.do_mar with Ok m -> same_stream m ts | _ -> false))
+    (b2s (doc_spec_in ts o))
     (b2s (list_eqb otoken_eqb (fst o.do_read2) (drained o.do_read)))
 
 let () =
@@ -135,24 +137,32 @@ let () =
     | [L [A "doc"; _; L toks; L (A "f" :: feats)]; L (A "obs" :: st :: rest)] ->
       let ts = List.map token_of toks in
       let o = match rest with
-        | [rw; rd; dec; L (A "read2" :: oc2 :: toks2); mar] ->
+        | [rw; rd; dec; L (A "read2" :: oc2 :: toks2); mar; marin] ->
           { do_status = status_of st; do_raw = raw_of_sx rw; do_read = read_of rd;
             do_dec = res_otokens_of dec;
             do_read2 = (List.map otoken_of toks2, outcome_of oc2);
-            do_mar = res_tokens_of mar }
+            do_mar = res_tokens_of mar; do_mar_in = res_tokens_of marin }
         | [] ->
           { do_status = status_of st; do_raw = dummy_raw; do_read = dummy_read;
-            do_dec = Err N0; do_read2 = ([], DFuel); do_mar = Err N0 }
+            do_dec = Err N0; do_read2 = ([], DFuel); do_mar = Err N0; do_mar_in = Err N0 }
         | _ -> raise (Parse_error "doc obs") in
       bump "kind_doc"; bump_all "doc_" feats;
       bump (Printf.sprintf "doc_tokens_%s" (let n = List.length ts in if n <= 4 then "le4" else if n <= 16 then "le16" else if n <= 64 then "le64" else "gt64"));
       if List.length ts >= 4 then note_nontrivial (show (List.hd sx));
       let wf = input_wf ts in
       if not wf then bump "doc_input_not_wf";
-      let agree = doc_agrees ts o and spec = doc_spec_ok ts o and k = doc_kf ts in
+      let agree = doc_agrees ts o and spec = doc_spec_ok ts o and k = doc_kf ts and kin = doc_kf_in ts in
       if k then bump "doc_kf_selected";
-      (* inside the finding a spec failure the model predicts is the recorded behaviour *)
-      let kf = if k && agree && not spec then kf_id else "-" in
+      if kin then bump "doc_kf_in_selected";
+      (* inside a finding a spec failure the model predicts is the recorded behaviour:
+         the main clauses can only fail inside xml-literal-namespace, the
+         container clause only there or inside embedded-no-namespace *)
+      let kf =
+        if not agree || spec then "-"
+        else if not (doc_spec_main ts o) then (if k then kf_id else "-")
+        else if kin then kf_in_id
+        else if k then kf_id
+        else "-" in
       verdict ~agree:(agree && wf) ~spec ~kf
         ~detail:((if wf then "" else "input is not the token sequence of one element; ") ^ doc_detail ts o ^ " | " ^ spec_detail ts o)
     (* ---- a malformed document *)
